@@ -26,7 +26,8 @@ Record gcfg := mkGcfg {
   k_cube : option opk;               (* decorator of DataFrame.cube *)
   k_dfagg : option opk;              (* decorator of DataFrame.agg *)
   g_append : bool;                   (* append= given to .select() in GroupedData.agg *)
-  g_cube_having : bool }.            (* the GROUPING SETS block carries HAVING COUNT( * ) > 0 *)
+  g_cube_having : bool;              (* the GROUPING SETS block carries HAVING COUNT( * ) > 0 *)
+  g_gid_always : bool }.             (* grouping_id()'s argument list is overwritten with the keys unconditionally *)
 
 (** the three ways into GroupedData.agg *)
 Inductive entry := ViaGroupBy | ViaCube | ViaDfAgg.
@@ -96,7 +97,7 @@ Section AggCompile.
   Definition cube_stage (idxs : nat -> list nat) (d : df) (keys : list (expr * string))
              (aggs : list (aexpr * string)) : list stage :=
     let d2 := entry_self ViaCube d in
-    map SB (done d2) ++ [SG (cube_gblock (g_append g) (g_cube_having g) (cube_sets_with idxs (map fst keys)) (cur d2) keys aggs)].
+    map SB (done d2) ++ [SG (cube_gblock (g_append g) (g_cube_having g) (g_gid_always g) (cube_sets_with idxs (map fst keys)) (cur d2) keys aggs)].
 
   (** ** decidable side condition on the generated facts *)
   Definition mem_opk (k : opk) (l : list opk) : bool := existsb (opk_eqb k) l.
@@ -105,7 +106,7 @@ Section AggCompile.
     (snd st || (claim (fst st) <? 5)) &&
     (5 <=? claim (entry_fin e l)) && mem_opk (entry_fin e l) (reach c).
   Definition gcfg_ok : bool :=
-    negb (g_append g) && forallb (fun l => forallb (fun e => entry_ok e l) all_entries) (reach c).
+    negb (g_append g) && g_gid_always g && forallb (fun l => forallb (fun e => entry_ok e l) all_entries) (reach c).
 
   (** ** programs with aggregation steps *)
   Inductive xop :=
@@ -132,7 +133,7 @@ Section AggCompile.
   Definition xop_ok (X : xdf) (xo : xop) : bool :=
     match xo with
     | POp o => op_ok c (x_d X) (x_ics X) o
-    | PAgg _ keys aggs => nodupb (agg_names keys aggs)
+    | PAgg _ keys aggs => nodupb (agg_names keys aggs) && no_gids aggs
     end.
   Fixpoint xops_ok (X : xdf) (xops : list xop) : bool :=
     match xops with
@@ -253,9 +254,16 @@ Section AggProof.
       apply (deco_sound (g_wrap g) (g_init g) (g_kind g) d1 ics input f1 I1 R1).
   Qed.
 
+  Lemma gcfg_gid : g_gid_always g = true.
+  Proof.
+    unfold gcfg_ok in Hg. apply andb_true_iff in Hg. destruct Hg as [Ha _].
+    apply andb_true_iff in Ha. tauto.
+  Qed.
+
   Lemma gcfg_entry e l : In l (reach c) -> entry_ok c g e l = true /\ g_append g = false.
   Proof.
     intro Hl. unfold gcfg_ok in Hg. apply andb_true_iff in Hg. destruct Hg as [Ha Hf].
+    apply andb_true_iff in Ha. destruct Ha as [Ha _].
     apply negb_true_iff in Ha. split; [|exact Ha].
     rewrite forallb_forall in Hf. specialize (Hf l Hl). rewrite forallb_forall in Hf. apply Hf.
     destruct e; simpl; tauto.
@@ -269,7 +277,8 @@ Section AggProof.
 
   (** ** the aggregation step *)
   Theorem agg_step_correct e d ics input keys aggs :
-    cols input = ics -> wf_frame input -> InvR c d ics -> nodupb (agg_names keys aggs) = true ->
+    cols input = ics -> wf_frame input -> InvR c d ics ->
+    nodupb (agg_names keys aggs) && no_gids aggs = true ->
     let sd := agg_stage c g e d keys aggs in
     let out := eval_stages (fst sd) input in
     out = spec_agg keys aggs (eval_df d input)
@@ -279,6 +288,7 @@ Section AggProof.
     /\ 5 <= claim (last (snd sd)).
   Proof.
     intros Hics Hwf [HI Hr] Hnd sd out.
+    apply andb_true_iff in Hnd. destruct Hnd as [Hnd Hng].
     destruct (gcfg_entry e (last d) Hr) as [Hok Happ].
     unfold entry_ok in Hok. apply andb_true_iff in Hok. destruct Hok as [Hok Hmem].
     apply andb_true_iff in Hok. destruct Hok as [Hready Hfin]. apply Z.leb_le in Hfin.
@@ -295,7 +305,7 @@ Section AggProof.
     assert (Eout : out = spec_agg keys aggs (eval_df d input)).
     { subst out sd. unfold agg_stage. fold d2. cbn [fst].
       rewrite eval_stages_app, eval_stages_blocks. fold (source d2 input). simpl.
-      rewrite Happ, gblock_is_spec. rewrite <- He2. unfold eval_df at 1.
+      rewrite Happ, gblock_is_spec by exact Hng. rewrite <- He2. unfold eval_df at 1.
       rewrite (eval_simple_block (cur d2) (source d2 input)); auto.
       rewrite Hcs; exact Hs. }
     assert (Ec : cols out = agg_names keys aggs) by (rewrite Eout; reflexivity).
@@ -361,12 +371,13 @@ Section AggProof.
   Theorem cube_step_correct (idxs : nat -> list nat) d ics input keys aggs :
     (forall n, Permutation (idxs n) (seq 0 (S n))) ->
     cols input = ics -> wf_frame input -> InvR c d ics ->
+    gids_top aggs = true ->
     g_cube_having g = true \/ rows (eval_df d input) <> [] ->
     let out := eval_stages (cube_stage c g idxs d keys aggs) input in
     cols out = cols (spec_cube keys aggs (eval_df d input))
     /\ Permutation (rows out) (rows (spec_cube keys aggs (eval_df d input))).
   Proof.
-    intros Hidx Hics Hwf [HI Hr] Hne out.
+    intros Hidx Hics Hwf [HI Hr] Htop Hne out.
     destruct (gcfg_entry ViaCube (last d) Hr) as [Hok Happ].
     unfold entry_ok in Hok. apply andb_true_iff in Hok. destruct Hok as [Hok _].
     apply andb_true_iff in Hok. destruct Hok as [Hready _].
@@ -385,8 +396,8 @@ Section AggProof.
     { rewrite <- He2. unfold eval_df. apply eval_simple_block; auto. rewrite Hcs; exact Hs. }
     subst out. unfold cube_stage. fold d2.
     rewrite eval_stages_app, eval_stages_blocks. fold (source d2 input).
-    cbn [eval_stages fold_left eval_stage]. rewrite Happ.
+    cbn [eval_stages fold_left eval_stage]. rewrite Happ, gcfg_gid.
     rewrite Eev in Hne |- *.
-    exact (cube_block_is_spec idxs (g_cube_having g) (cur d2) keys aggs (source d2 input) Hidx Hne).
+    exact (cube_block_is_spec idxs (g_cube_having g) (cur d2) keys aggs (source d2 input) Hidx Htop Hne).
   Qed.
 End AggProof.
